@@ -542,3 +542,20 @@ Qed.
 
 (* simplify the application of a generated loop body / condition to a state tuple *)
 Ltac body_red := cbv beta iota.
+
+(* ---------- hardening of the tie scripts against harmless rewrites of the source (tools/LOOPS_TRANSLATOR.md, "Hardening") ----------
+   tools/rs2v_loops.py emits comparisons in one direction (`a > b` as `b <? a`, `a >= b` as `b <=? a`) and a two-component
+   tuple pattern `let (x, y) = e` as `let pr' := e in let x := fst pr' in let y := snd pr'` (convertible with
+   `let r = e; .. r.0 .. r.1`).  The lemmas / tactics below let a step proof be written once for either source shape. *)
+Lemma ltb_0_of_nat a : (0 <? Z.of_nat a) = (0 <? a)%nat.
+Proof. change 0 with (Z.of_nat 0) at 1. apply ltb_of_nat. Qed.
+
+(* comparisons: whatever is left of `>?` / `>=?` (an operand that can panic keeps the source direction) becomes `<?` / `<=?` *)
+Ltac canon_cmp := rewrite ?Z.gtb_ltb, ?Z.geb_leb.
+Ltac canon_cmp_in H := rewrite ?Z.gtb_ltb, ?Z.geb_leb in H.
+
+(* pairs: a remaining `match e with (x, y) => _ end` (a pattern the translator does not canonicalise) is the body at
+   `fst e`, `snd e`; destructing the scrutinee is then never needed to make progress *)
+Lemma pair_match_eta {A B C} (e : A * B) (f : A -> B -> C) : (let '(x, y) := e in f x y) = f (fst e) (snd e).
+Proof. destruct e; reflexivity. Qed.
+Ltac step_pairs_eta := rewrite ?pair_match_eta; cbv zeta; cbn [fst snd].
